@@ -18,7 +18,8 @@ Proofs/GenTieBasisAll Proofs/GenTieEvalDerivCurve Proofs/GenTieEvalDerivCurve2 P
 Proofs/GenTieEvalDerivSurfRat Proofs/GenTieDerivSurfShape Proofs/GenTieEvalDerivSurf2
 Gen/Compatibility Proofs/GenTieCompat Proofs/GenTieFlip
 Gen/OperationsInternal Gen/UtilitiesB Proofs/GenTieFindCtrlpts Proofs/GenTieCheckParams
-Gen/PreludeExt2 Gen/FittingB Proofs/GenTieFitB Proofs/GenTieFitSurf Gen/LinalgB Proofs/GenTieLinAlgB Proofs/GenTieLinAlgSqrt"
+Gen/PreludeExt2 Gen/FittingB Proofs/GenTieFitB Proofs/GenTieFitSurf Gen/LinalgB Proofs/GenTieLinAlgB Proofs/GenTieLinAlgSqrt
+Gen/LinalgC Gen/VoxelizeB Proofs/GenTieVoxelGrid"
 start="$1"; go=1; [ -n "$start" ] && go=0
 for f in $FILES; do
   [ "$f" = "$start" ] && go=1
